@@ -213,6 +213,26 @@ var actions = map[string]func() string{
 		k2, _, _, _, _, _, err2 := bip32.Deserialize(xs)
 		return fmt.Sprintf("%s %x %x %x %d %d %d %v %x %v", xp, k, c, f, d, i, v, err, k2, err2)
 	},
+	// a fingerprint is asked for twice and the second answer kept while 70 other keys are fingerprinted
+	// (by this and by the other goroutines); what was kept must still be the key's fingerprint
+	"fpheld": func() string {
+		pub := ecc.GetPublicKeyCompressed(key2)
+		if _, err := bip32.KeyFingerprint(pub); err != nil {
+			return "err " + err.Error()
+		}
+		held, err := bip32.KeyFingerprint(pub)
+		if err != nil {
+			return "err " + err.Error()
+		}
+		want := fmt.Sprintf("%x", held)
+		for i := 0; i < 70; i++ {
+			bip32.KeyFingerprint(ecc.GetPublicKeyCompressed(stormKey(100 + i)))
+		}
+		if got := fmt.Sprintf("%x", held); got != want {
+			return "wrong: the fingerprint a caller held changed from " + want + " to " + got
+		}
+		return want
+	},
 	"rpcstorm": func() string {
 		for i := 0; i < 40; i++ {
 			if _, err := conn.Request("getblockcount", tag()); err != nil {
